@@ -1051,6 +1051,8 @@ class Interp(object):
             return self.none_obligation(v, node, "arithmetic on None")
         if ops.is_sym(v) and z3.is_bool(v):
             return z3.If(v, z3.RealVal(1), z3.RealVal(0))
+        if isinstance(v, Model) and hasattr(v, "term") and hasattr(v, "pytype"):
+            return v.term          # a typed Python number (pyvc.pynum): arithmetic sees its value
         raise Unsupported("arithmetic on %r" % (v,), node)
 
     def ex_BinOp(self, node, env):
@@ -1250,6 +1252,14 @@ class Interp(object):
                 return item in container.d
         if isinstance(container, Model):
             return container.call_method(self, "__contains__", [item], {}, node)
+        if isinstance(container, str) and isinstance(item, str):
+            return item in container
+        if is_symstr(container) and isinstance(item, str):
+            # a literal needle: as a regular-language membership (.*needle.*), which combines with other memberships
+            anyc = z3.Full(z3.ReSort(z3.StringSort()))
+            return z3.InRe(container, z3.Concat(anyc, z3.Re(item), anyc))
+        if (is_symstr(container) or isinstance(container, str)) and (is_symstr(item) or isinstance(item, str)):
+            return z3.Contains(ops.lift(container), ops.lift(item))
         raise Unsupported("'in' on %r" % (container,), node)
 
     # ---- truthiness ----------------------------------------------------------------
@@ -1567,6 +1577,8 @@ def _bi_isinstance(interp, args, kwargs, node):
                 return True
             if c.name == "float" and is_number(v) and not isinstance(v, int):
                 return True
+            if isinstance(v, Model) and getattr(v, "pytype", None) == c.name:
+                return True
         else:
             raise Unsupported("isinstance against %r" % (c,), node)
     return False
@@ -1617,6 +1629,33 @@ def _bi_abs(interp, args, kwargs, node):
     if conc_number(v):
         return abs(v)
     return z3.If(v >= 0, v, -v)
+
+
+def _bi_format(interp, args, kwargs, node):
+    v = args[0]
+    spec = args[1] if len(args) > 1 else ""
+    if isinstance(v, Model) and hasattr(v, "format"):
+        return v.format(interp, spec, node)
+    raise Unsupported("format(%r, %r)" % (v, spec), node)
+
+
+def _bi_round(interp, args, kwargs, node):
+    """round(x) / round(x, n) with a literal n: some value within half a unit of the last kept digit of x (which one --
+    ties, binary representation -- is not modelled, so what is proved holds for every rounding)."""
+    v = interp.num(args[0], node)
+    nd = args[1] if len(args) > 1 else None
+    if nd is not None and not isinstance(nd, int):
+        raise Unsupported("round with a symbolic number of digits", node)
+    interp.ctx.assumed.add("A2:round(x, n) is within 0.5*10^-n of x (the tie rule and float representation are not modelled)")
+    if nd is None:
+        r = interp.ctx.int("round", record=False)
+        interp.ctx.assume(z3.And(2 * ops.lift(v) - 1 <= 2 * z3.ToReal(r), 2 * z3.ToReal(r) <= 2 * ops.lift(v) + 1), definitional=True)
+        return r
+    half = Fraction(5, 10 ** (nd + 1)) if nd >= 0 else Fraction(5 * 10 ** (-nd - 1))
+    r = interp.ctx.real("round", record=False)
+    lv = ops.lift(v)
+    interp.ctx.assume(z3.And(lv - z3.RealVal(str(half)) <= r, r <= lv + z3.RealVal(str(half))), definitional=True)
+    return r
 
 
 def _bi_minmax(is_max):
@@ -1748,6 +1787,8 @@ BUILTINS = {
     "float": _Builtin("float", _bi_float),
     "int": _Builtin("int", _bi_int),
     "abs": _Builtin("abs", _bi_abs),
+    "round": _Builtin("round", _bi_round),
+    "format": _Builtin("format", _bi_format),
     "str": _Builtin("str", _bi_str),
     "getattr": _Builtin("getattr", _bi_getattr),
     "dict": _Builtin("dict", _bi_dict),
